@@ -14,32 +14,42 @@ if not patch.strip():
 open(f"{D}/patch.diff", "w").write(patch)
 if os.path.exists(f"{O}/demo.py"):
     shutil.copy(f"{O}/demo.py", f"{D}/demo.py")
-rw = run(f"/venv/bin/python -W ignore {O}/demo.py", cwd=W).returncode
-# (no `git stash`: the stash is shared between worktrees)
-run(f"git apply -R {D}/patch.diff", cwd=W)
-rwo = run(f"/venv/bin/python -W ignore {O}/demo.py", cwd=W).returncode
-run(f"git apply {D}/patch.diff", cwd=W)
-tests = run("timeout 1200 /venv/bin/python -m pytest -q -p no:cacheprovider --timeout=300 2>&1 | tail -1", cwd=W).stdout.strip()
+prev = {}
+if os.environ.get("SEED_SKIP_CONFIRM") and os.path.exists(f"{D}/meta.json"):
+    prev = json.load(open(f"{D}/meta.json")).get("confirmed", {})
+if prev:
+    rw, rwo, tests = prev["demo_rc_with_change"], prev["demo_rc_without_change"], prev["test_suite"]
+else:
+    rw = run(f"/venv/bin/python -W ignore {O}/demo.py", cwd=W).returncode
+    # (no `git stash`: the stash is shared between worktrees)
+    run(f"git apply -R {D}/patch.diff", cwd=W)
+    rwo = run(f"/venv/bin/python -W ignore {O}/demo.py", cwd=W).returncode
+    run(f"git apply {D}/patch.diff", cwd=W)
+    tests = run("timeout 1200 /venv/bin/python -m pytest -q -p no:cacheprovider --timeout=300 2>&1 | tail -1", cwd=W).stdout.strip()
 env = dict(os.environ, VF_REPO=W, VF_EVIDENCE_DIR=f"/tmp/seed_ev_{TAG}")
 tier = os.environ.get("SEED_TIER", "quick")
-r = subprocess.run(["./vf", ID, tier], cwd="/verif", env=env, capture_output=True, text=True)
-log = r.stdout + r.stderr
-nv = sum(1 for l in log.splitlines() if l.startswith("VIOLATION"))
-open(f"/tmp/seed_vf_{TAG}.log", "w").write(log)
 agent = {}
 try:
     agent = json.load(open(f"{O}/meta.json"))
 except Exception:
     pass
-first = next((l for l in log.splitlines() if l.startswith("  obligation")), "")[:400]
-meta = {"property": ID, "what_it_breaks": agent.get("what_it_breaks"), "needs_to_manifest": agent.get("needs_to_manifest"),
+results = []
+for cid in ID.split(","):            # the property the seed was written against first, then other checks that cover the same code
+    r = subprocess.run(["./vf", cid, tier], cwd="/verif", env=env, capture_output=True, text=True)
+    log = r.stdout + r.stderr
+    nv = sum(1 for l in log.splitlines() if l.startswith("VIOLATION"))
+    open(f"/tmp/seed_vf_{TAG}_{cid}.log", "w").write(log)
+    first = next((l for l in log.splitlines() if l.startswith("  obligation")), "")[:400]
+    results.append({"check": cid, "tier": tier, "exit_code": r.returncode, "violation_lines": nv, "detected": r.returncode == 1 and nv > 0,
+                    "first_violation": first, "summary": [l for l in log.splitlines() if l.startswith(f"{cid} {tier}:")][-1:]})
+meta = {"property": ID.split(",")[0], "what_it_breaks": agent.get("what_it_breaks"), "needs_to_manifest": agent.get("needs_to_manifest"),
         "files": agent.get("files"),
         "confirmed": {"demo_rc_with_change": rw, "demo_rc_without_change": rwo, "test_suite": tests,
-                      "ran": ["cd <scratch worktree> && /venv/bin/python demo.py, with the change and (git stash) without it",
+                      "ran": ["cd <scratch worktree> && /venv/bin/python demo.py, with the change and (git apply -R) without it",
                               "full pytest suite in the scratch worktree with the change",
-                              f"VF_REPO=<scratch worktree> ./vf {ID} {tier}  (the check imports the changed tree; /repo untouched)"]},
-        "check_result": {"tier": tier, "exit_code": r.returncode, "violation_lines": nv, "detected": r.returncode == 1 and nv > 0,
-                         "first_violation": first, "summary": [l for l in log.splitlines() if l.startswith(f"{ID} {tier}:")][-1:]}}
+                              f"VF_REPO=<scratch worktree> ./vf <check> {tier}  (the check imports the changed tree; /repo untouched)"]},
+        "check_result": dict(results[0], detected=any(x["detected"] for x in results)), "all_checks": results}
 json.dump(meta, open(f"{D}/meta.json", "w"), indent=1)
-print(f"{TAG}: demo with={rw} without={rwo}; tests: {tests}; check rc={r.returncode} violations={nv}")
-print("   ", meta["check_result"]["summary"], first[:200])
+print(f"{TAG}: demo with={rw} without={rwo}; tests: {tests}; " + "; ".join(f"{x['check']} rc={x['exit_code']} violations={x['violation_lines']}" for x in results))
+for x in results:
+    print("   ", x["summary"], x["first_violation"][:200])
